@@ -375,7 +375,6 @@ Proof.
 Qed.
 
 (* ---------------------------------------------------------------- statements *)
-Definition shortif_ok_at (m : tree -> M tree -> Prop) : Prop := True.
 
 Definition shortif_stmt : Prop :=
   forall pos ii q tif p mx n a b o c ex bk rest s',
